@@ -136,7 +136,14 @@ impl Res {
 }
 
 pub fn silence_panics() {
-    std::panic::set_hook(Box::new(|_| {}));
+    // panics inside contract code are data (caught by `exec`); panics of the harness itself are bugs
+    std::panic::set_hook(Box::new(|info| {
+        if let Some(l) = info.location() {
+            if l.file().starts_with("src/") {
+                eprintln!("harness panic at {}:{}: {}", l.file(), l.line(), info);
+            }
+        }
+    }));
 }
 
 fn panic_text(e: Box<dyn std::any::Any + Send>) -> String {
